@@ -196,7 +196,8 @@ def compile_design(elaboratable):
     is a list of (process, source_text) in generation order."""
     import types
     from amaranth.sim._pyrtl import _FragmentCompiler
-    design = elaborate(elaboratable)
+    from amaranth.hdl import _ir
+    design = elaboratable if isinstance(elaboratable, _ir.Design) else elaborate(elaboratable)
     state = StageState()
     codes = []
     from amaranth.sim import _pyrtl
